@@ -544,6 +544,7 @@ func (e *Exec) Step(i int, op *Op) OpRes {
 	}
 	var err error
 	var skipped string
+	DirtyPools(i%16 == 0)
 	site, msg, p := ev.Guard(func() { err, skipped = e.do(op) })
 	switch {
 	case p:
